@@ -404,7 +404,7 @@ def r4(ctx):
             return _missing(v.body) and _missing(v.orelse)
         return False
 
-    ok = len(els) == 1 and _missing(els[0].value)
+    ok = (None if not els else (len(els) == 1 and _missing(els[0].value)))
     ctx.ob(w.qual, "unphased-call-gets-no-tag", ok, w.loc(els[0].stmt) if els else w.loc(), "a target call that is not phased gets the missing value (None / '.') under the written tag" if ok else "the unphased branch does not clear the tag")
 
 
